@@ -1,0 +1,47 @@
+//go:build verif
+
+// Contracts for the deductive checker in /verif (gvc). Comments only.
+
+package manager
+
+//@ property C10
+
+// Reference counting of index files: lock and release touch nothing but the counter table.
+// (Close/Remove of a released reader act on the reader and the file system, not on the manager.)
+// assumed: closing a reader and removing its file do not touch the manager's state
+//@ extern (*github.com/spq/pkappa2/internal/index.Reader).Close(r) err
+//@ extern (*github.com/spq/pkappa2/internal/index.Reader).Filename(r) name
+//@ extern os.Remove(name) err
+
+//@ func (*Manager).lock
+//@   requires mgr.usedIndexes != nil
+//@   modifies mgr.usedIndexes
+//@   ensures seq_eq(result, indexes) && mgr.usedIndexes != nil
+//@   loop 1 invariant mgr.usedIndexes != nil
+
+//@ func (*indexReleaser).release
+//@   requires mgr.usedIndexes != nil
+//@   modifies mgr.usedIndexes
+//@   ensures mgr.usedIndexes != nil
+//@   loop 1 invariant mgr.usedIndexes != nil
+
+// Replacement of a merged run inside the index list (completion of a merge job, executed by the
+// service goroutine): the list becomes old[:offset] ++ merged ++ old[offset+len(indexes):] - everything
+// before and after the merged run stays, in order, including index files appended by imports that
+// finished while the merge was running.
+//@ func (*Manager).mergeIndexesJob$1
+//@   prop C07
+//@   nosafety
+//@   noframe
+//@   requires mgr.usedIndexes != nil && 0 <= offset && offset + len(indexes) <= len(mgr.indexes)
+//@   assert before call (*Manager).startMergeJobIfNeeded#1: splice: implies(len(mergedIndexes) != 0 && isnil(err), \
+//@       len(mgr.indexes) == old(len(mgr.indexes)) - len(indexes) + len(mergedIndexes) && \
+//@       forall(k, 0, offset, mgr.indexes[k] == old(mgr.indexes[k])) && \
+//@       forall(k, 0, len(mergedIndexes), mgr.indexes[offset+k] == mergedIndexes[k]) && \
+//@       forall(k, offset+len(indexes), old(len(mgr.indexes)), mgr.indexes[k-len(indexes)+len(mergedIndexes)] == old(mgr.indexes[k])))
+//@   assert before call (*Manager).startMergeJobIfNeeded#1: splice10@C10: implies(len(mergedIndexes) != 0 && isnil(err), \
+//@       len(mgr.indexes) == old(len(mgr.indexes)) - len(indexes) + len(mergedIndexes) && \
+//@       forall(k, 0, offset, mgr.indexes[k] == old(mgr.indexes[k])) && \
+//@       forall(k, 0, len(mergedIndexes), mgr.indexes[offset+k] == mergedIndexes[k]) && \
+//@       forall(k, offset+len(indexes), old(len(mgr.indexes)), mgr.indexes[k-len(indexes)+len(mergedIndexes)] == old(mgr.indexes[k])))
+//@   assert before call (*Manager).startMergeJobIfNeeded#1: failed: implies(len(mergedIndexes) == 0 || !isnil(err), same_slice(mgr.indexes, old(mgr.indexes)))
